@@ -31,6 +31,18 @@ type Node struct {
 // The root "/" is always a collection and is not stored.
 type Tree map[string]Node
 
+// Files lists the paths of the files, sorted.
+func (t Tree) Files() []string {
+	var l []string
+	for p, n := range t {
+		if !n.Dir {
+			l = append(l, p)
+		}
+	}
+	sort.Strings(l)
+	return l
+}
+
 func (t Tree) Clone() Tree {
 	c := make(Tree, len(t))
 	for k, v := range t {
@@ -164,7 +176,9 @@ type Req struct {
 	PathForm string `json:"path_form,omitempty"`
 	// DestForm: "path", "url", "slash", "missing", "garbage", "relative",
 	// "nopath", or a non-canonical spelling of the destination path: "dotseg",
-	// "dblslash", "updown".
+	// "dblslash", "updown"; or an absolute URI / network-path reference whose
+	// authority is another spelling of this server's: "url-upper" (host in upper
+	// case), "url-port" (the default port written out), "netpath" (//host/path).
 	DestForm string `json:"dest_form,omitempty"`
 	Dest     string `json:"dest,omitempty"`
 	// PropBody: "" (empty body), "five" (the client's five-property request).
@@ -238,7 +252,7 @@ func InUniverse(r Req) bool {
 // DestNamesPath reports whether the Destination form denotes the path Dest.
 func DestNamesPath(form string) bool {
 	switch form {
-	case "path", "url", "slash", "dotseg", "dblslash", "updown":
+	case "path", "url", "slash", "dotseg", "dblslash", "updown", "url-upper", "url-port", "netpath":
 		return true
 	}
 	return false
